@@ -118,3 +118,16 @@ Theorem C01_composition_adds_logdets : forall n (Jg Jf : 'M[R]_n),
   ln (Rabs (\det (Jg *m Jf))) = Rplus (ln (Rabs (\det Jg))) (ln (Rabs (\det Jf))).
 Proof. exact: logdet_compose. Qed.
 Print Assumptions C01_composition_adds_logdets.
+
+(* ---- the WHOLE rational-quadratic spline (knots from any unnormalised parameters, bin search, bin formula): differentiable at
+   every interior point of the box, the knots included (the two neighbouring bin formulas agree there in value and in
+   derivative), and the returned log-abs-det is the logarithm of that derivative ---- *)
+From NF Require Import Model.SplineRQ Proofs.SplineRQWhole.
+Theorem C01_rq_whole_spline_logabsdet_is_log_derivative :
+  forall (c : @rq_cfg R) (bx : @box R) (uw uh ud : list R), rq_wellformed c bx uw uh ud ->
+  forall x, b_left bx < x < b_right bx ->
+    is_derive (F c bx uw uh ud) x (exp (Flad c bx uw uh ud x)) /\ 0 < exp (Flad c bx uw uh ud x).
+Proof.
+  intros c bx uw uh ud [H1 [H2 [H3 [H4 [H5 [H6 [H7 [H8 [H9 [H10 H11]]]]]]]]]]. apply whole_derivative; assumption.
+Qed.
+Print Assumptions C01_rq_whole_spline_logabsdet_is_log_derivative.
